@@ -93,14 +93,13 @@ void snoopy_message_generateFromFormat (
         }
 
         // Otherwise copy text up to the next data source tag
-        lengthToCopy = (int) (fmtPos_nextFormatTag - fmtPos_cur + 1); // + 1 for null termination
-        if (lengthToCopy > dataSourceMsgBufSize) {
-            lengthToCopy = dataSourceMsgBufSize;
+        // (literal text is only subject to the log message length limit, not to the data source one)
+        lengthToCopy = (size_t) (fmtPos_nextFormatTag - fmtPos_cur);
+        if (lengthToCopy > 0) {
+            char *literalText = strndup(fmtPos_cur, lengthToCopy);
+            snoopy_message_append(logMessage, logMessageBufSize, literalText);
+            free(literalText);
         }
-        dataSourceMsg[0] = '\0'; // Let's just use this buffer, even if it is called something else
-        snprintf(dataSourceMsg, lengthToCopy, "%s", fmtPos_cur);
-        snoopy_message_append(logMessage, logMessageBufSize, dataSourceMsg);
-        dataSourceMsg[0] = '\0'; // And wipe it for later reuse
 
         // Get data source tag
         fmtPos_nextFormatTagClose = strstr(fmtPos_nextFormatTag, "}");
